@@ -394,3 +394,132 @@ Proof.
   split; intro Hin; apply project_in_req in Hin; rewrite P in Hin;
     [specialize (He (g_xid v) _ Hin (or_introl eq_refl)) | specialize (He (g_xid v) _ Hin (or_intror eq_refl))]; lia.
 Qed.
+
+(* ---------------------------------------------------------------- under ANY coordinator behaviour:
+   every commit/rollback of a program names a transaction the program itself began *)
+Definition xid_range (lo hi : N) (xs : list N) : Prop := Forall (fun x => lo <= x /\ x < hi) xs.
+
+Lemma xid_range_weaken lo hi lo' hi' xs : lo' <= lo -> hi <= hi' -> xid_range lo hi xs -> xid_range lo' hi' xs.
+Proof. intros H1 H2 H. eapply Forall_impl; [|exact H]. cbn. intros. lia. Qed.
+
+Lemma sp_loop_xids fuel n k q w w' r es :
+  sp_loop fuel n k q w = (w', r, es) ->
+  w_next w' = w_next w /\ forall x, In x (sp_xids es) -> q = QCommit x \/ q = QRollback x.
+Proof.
+  intro H. destruct (sp_loop_spec _ _ _ _ _ _ _ _ H) as (reps & -> & _ & _ & _ & _ & _ & _ & _ & Hn).
+  split; [exact Hn|]. intros x Hx. rewrite sp_xids_app in Hx. apply in_app_or in Hx as [Hx|Hx].
+  - clear H. induction reps as [|rp reps IH]; [destruct Hx|].
+    destruct q; cbn in Hx; auto; destruct Hx as [<-|Hx]; auto.
+  - destruct r; cbn in Hx; destruct Hx.
+Qed.
+
+Lemma second_phase_xids cs cf ok w v w' e es :
+  lookup_role (cs_second cs) Launcher = Some SADecide ->
+  lookup_role (cs_second cs) Participant = Some SANothing ->
+  lookup_role (cs_second cs) UnKnow = Some SAError ->
+  second_phase cs cf ok w v = (w', e, es) ->
+  w_next w' = w_next w /\
+  (sp_xids es = [] \/ (is_gtx v = true /\ g_role v = Launcher /\ Forall (fun x => x = g_xid v) (sp_xids es))).
+Proof.
+  intros RL RP RU H. unfold second_phase in H.
+  destruct (is_gtx v) eqn:G; [|inversion H; subst; auto].
+  destruct (g_role v) eqn:R.
+  - rewrite RU in H. inversion H; subst; auto.
+  - rewrite RL in H. unfold decide in H. rewrite R in H.
+    destruct (sp_loop _ _ _ _ _) as [[w1 r] es1] eqn:E. inversion H; subst.
+    destruct (sp_loop_xids _ _ _ _ _ _ _ _ E) as [Hn Hx]. split; [exact Hn|]. right.
+    repeat split; auto. apply Forall_forall. intros x Hin. specialize (Hx _ Hin).
+    destruct ok; destruct Hx as [Hx|Hx]; inversion Hx; reflexivity.
+  - rewrite RP in H. inversion H; subst; auto.
+Qed.
+
+(* what begin leaves behind, for every mode and entry context *)
+Lemma bops_cases cs m id w vin w1 v1 ok es1 :
+  shape_ok cs = true ->
+  run_bops (ops_for cs m (is_gtx (if is_gtx vin then clear_conf vin else vin))) id w
+           (if is_gtx vin then clear_conf vin else vin) = (w1, v1, ok, es1) ->
+  sp_xids es1 = [] /\ w_next w <= w_next w1 /\
+  (ok = true -> is_gtx v1 = true -> g_role v1 = Launcher -> g_xid v1 = w_next w /\ w_next w1 = w_next w + 1).
+Proof.
+  intros Hs H. rewrite is_gtx_clear in H. rewrite (shape_ops cs Hs) in H.
+  assert (forall v0, let '(wa, va, oka, ea) := begin_new id w v0 in
+            sp_xids ea = [] /\ w_next w <= w_next wa /\
+            (oka = true -> g_xid va = w_next w /\ w_next wa = w_next w + 1)) as HB.
+  { intro v0. unfold begin_new. rewrite send_eq.
+    destruct (match w_script w with [] => w_default w | r :: _ => r end); cbn;
+      repeat split; try lia; try discriminate; auto. }
+  destruct (is_gtx vin) eqn:T; destruct m; cbn [disposition_of expected_arm run_bops] in H;
+    try (inversion H; subst; cbn; repeat split; try lia; try discriminate; intros; try discriminate;
+         match goal with
+         | [ X : is_gtx _ = true |- _ ] => try (cbn in X; discriminate); try congruence
+         end; fail).
+  all: try (match type of H with begin_new ?i ?ww ?vv = _ => specialize (HB vv); rewrite H in HB;
+             destruct HB as (A & B & C); repeat split; auto; intros; apply C; auto end).
+  all: try (rewrite (use_exist_clear id vin T) in H; inversion H; subst; cbn; repeat split; try lia; discriminate).
+Qed.
+
+Lemma sp_xids_enter a b c d : sp_xids [EEnter a b c d] = []. Proof. reflexivity. Qed.
+Lemma sp_xids_cons_enter a b c d l : sp_xids (EEnter a b c d :: l) = sp_xids l. Proof. reflexivity. Qed.
+Lemma sp_xids_ret a b : sp_xids [ERet a b] = []. Proof. reflexivity. Qed.
+Lemma sp_xids_after a b c d : sp_xids [EAfter a b c d] = []. Proof. reflexivity. Qed.
+
+Definition owns (cs : code_shape) (cf : config) (s : scope) : Prop :=
+  forall w v w' v' res es,
+    run_scope cs cf s w v = (w', v', res, es) ->
+    w_next w <= w_next w' /\ xid_range (w_next w) (w_next w') (sp_xids es).
+
+Lemma kids_own cs cf id ks :
+  Forall (owns cs cf) ks ->
+  forall w v wb vb eb,
+    run_kids cs cf id ks w v = (wb, vb, eb) ->
+    w_next w <= w_next wb /\ xid_range (w_next w) (w_next wb) (sp_xids eb).
+Proof.
+  induction 1 as [|k ks Hk Hks IH]; intros w v wb vb eb H.
+  - inversion H; subst. split; [lia|constructor].
+  - rewrite run_kids_cons in H.
+    destruct (run_scope cs cf k w v) as [[[wa va] ra] ea] eqn:Ek.
+    destruct (run_kids cs cf id ks wa va) as [[wb' vb'] eb'] eqn:Eks.
+    inversion H; subst; clear H.
+    destruct (Hk _ _ _ _ _ _ Ek) as [L1 R1]. destruct (IH _ _ _ _ _ Eks) as [L2 R2].
+    split; [lia|]. rewrite !sp_xids_app. cbn [sp_xids flat_map app].
+    apply Forall_app. split.
+    + eapply xid_range_weaken; [| |exact R1]; lia.
+    + eapply xid_range_weaken; [| |exact R2]; lia.
+Qed.
+
+Lemma all_own cs cf : shape_ok cs = true -> forall s, owns cs cf s.
+Proof.
+  intros Hs. pose proof (shape_restores cs Hs) as Hr.
+  destruct (shape_roles cs Hs) as (RL & RP & RU).
+  apply scope_ind'. intros m id sh kids out HK.
+  assert (Forall (intact cs cf) kids) as HI by (apply Forall_forall; intros; now apply all_intact).
+  intros w v w' v' res es H. rewrite run_scope_eq in H. cbv zeta in H.
+  set (vin := if sh then v else fresh_of v) in *.
+  destruct (run_bops _ id w _) as [[[w1 v1] ok] es1] eqn:Eb.
+  destruct (bops_cases cs m id w vin _ _ _ _ Hs Eb) as (X1 & N1 & L1).
+  destruct ok; cbn [negb] in H.
+  - destruct (run_kids cs cf id kids w1 v1) as [[w3 v3] es3] eqn:Ek.
+    destruct (kids_intact cs cf id kids HI _ _ _ _ _ Ek) as [-> _].
+    destruct (kids_own cs cf id kids HK _ _ _ _ _ Ek) as [N3 X3].
+    destruct (second_phase cs cf (out_ok out) w3 v1) as [[w4 sperr] es4] eqn:Es.
+    destruct (second_phase_xids cs cf _ _ _ _ _ _ RL RP RU Es) as [N4 X4].
+    inversion H; subst; clear H.
+    split; [lia|].
+    rewrite sp_xids_app, X1, ?sp_xids_cons_enter, !sp_xids_app, ?sp_xids_enter, sp_xids_ret, ?app_nil_r. cbn [app].
+    unfold xid_range. apply Forall_app. split; [eapply xid_range_weaken; [| |exact X3]; lia|].
+    destruct X4 as [->|(G & R & F)]; [constructor|].
+    destruct (L1 eq_refl G R) as [E1 E2].
+    eapply Forall_impl; [|exact F]. cbn. intros x ->. lia.
+  - inversion H; subst; clear H. split; [exact N1|].
+    rewrite sp_xids_app, X1, sp_xids_ret. constructor.
+Qed.
+
+(* corollary: a transaction that was current on entry is never ended, whatever the coordinator does *)
+Lemma c07_never_ends_joined_any_world cs cf t w v w' v' res es :
+  shape_ok cs = true -> g_xid v < w_next w ->
+  run_scope cs cf t w v = (w', v', res, es) ->
+  ~ In (g_xid v) (sp_xids es).
+Proof.
+  intros Hs Hlt H Hin. destruct (all_own cs cf Hs t _ _ _ _ _ _ H) as [_ R].
+  unfold xid_range in R. rewrite Forall_forall in R. specialize (R _ Hin). lia.
+Qed.
